@@ -160,6 +160,7 @@ type Report struct {
 	Outcomes   map[string]int
 	Notes      []string
 	Extra      map[string]interface{}
+	NoRuns     bool // the check does not use the wx explorer: exhaustiveness is decided by the check itself
 }
 
 // NewReport starts a report.
@@ -310,7 +311,7 @@ func (rp *Report) Finish(level string, assumptions []string, extra map[string]in
 		"transitions":                   rp.Trans,
 		"traces_validated_against_impl": rp.Trans,
 		"samples":                       rp.Samples,
-		"exhaustive":                    rp.Exhaustive && len(rp.Runs) > 0,
+		"exhaustive":                    rp.Exhaustive && (len(rp.Runs) > 0 || rp.NoRuns),
 		"runs":                          rp.Runs,
 		"distinct_outcomes":             rp.Outcomes,
 		"known_findings":                rp.Known,
